@@ -106,7 +106,7 @@ def one_run(sx, h_one, w, cfgtext, opts, uid=0, prep=None, calltimeout=2500, tot
             open(res, 'w').close()
             os.chmod(res, 0o666)
             os.chmod(w, 0o777)
-        rep = X.run(sx, w, [h_one, ini, res, str(uid), '1', os.path.join(w, 'devlog')], opts=list(opts) + ['--calltimeout', str(calltimeout), '--totaltimeout', str(totaltimeout)], timeout=totaltimeout / 1000 + 30)
+        rep = X.run(sx, w, [h_one, ini, res, str(uid), '1', os.path.join(w, 'devlog')], opts=list(opts) + ['--skipalloc', '--calltimeout', str(calltimeout), '--totaltimeout', str(totaltimeout)], timeout=totaltimeout / 1000 + 30)
         try:
             rep['result'] = json.load(open(res))
         except Exception:
@@ -118,6 +118,8 @@ def one_run(sx, h_one, w, cfgtext, opts, uid=0, prep=None, calltimeout=2500, tot
 
 def verdict(rep):
     bad = []
+    if rep.get('diverged'):
+        return ['HARNESS:diverged']
     if rep.get('error'):
         bad.append('harness:' + rep['error'])
     if rep.get('blocked_call', -2) != -2:
@@ -140,7 +142,11 @@ def verdict(rep):
     return bad
 
 
-def opts_for(dev, call):
+def opts_for(dev, call, guard=True):
+    return (['--expectnr', str(call['nr'])] if guard else []) + _opts_for(dev, call)
+
+
+def _opts_for(dev, call):
     kind, val = dev
     i = call['i']
     if kind == 'fail':
@@ -163,6 +169,7 @@ def run(ck):
     outcomes = set()
     samples = []
     counter = [0]
+    diverged = [0]
 
     def wdir():
         counter[0] += 1
@@ -197,6 +204,13 @@ def run(ck):
         evals += 1
         n, c, dev = job
         b = verdict(rep)
+        if b == ['HARNESS:diverged']:
+            # the k-th call of this run is not the call the trace saw (run-to-run variation): re-run once, never a verdict
+            rep = one_run(sx, v['h_one'], wdir(), cfg[n], opts_for(dev, c))
+            b = verdict(rep)
+            if b == ['HARNESS:diverged']:
+                diverged[0] += 1
+                continue
         outcomes.add((n, c['name'], c.get('path', '')[-30:], dev, tuple(b), rep.get('ncalls')))
         if b and ('hang_or_spin' in b or any(x.startswith('blocked') for x in b)):
             retry.append(job)      # re-run alone with a 5x limit before calling it a hang
@@ -230,7 +244,7 @@ def run(ck):
                     continue
                 m2 = [d for d in menu(c2['name'], 'quick') if d[0] == 'fail'][:2]
                 for d2 in m2:
-                    rep = one_run(sx, v['h_one'], wdir(), cfg[n], o1 + opts_for(d2, c2))
+                    rep = one_run(sx, v['h_one'], wdir(), cfg[n], o1 + opts_for(d2, c2, guard=False))
                     out.append((c2, d2, rep))
             return out
         for job, lst in zip(first, pmap(second_level, first)):
@@ -241,6 +255,9 @@ def run(ck):
                 evals += 1
                 pairs_done += 1
                 b = verdict(rep)
+                if b == ['HARNESS:diverged']:
+                    diverged[0] += 1
+                    continue
                 outcomes.add((n, 'pair', c['name'], dev, c2['name'], d2, tuple(b)))
                 if b:
                     ck.violation('C03:%s:cfg=%s:pair=%s:%s+%s:%s' % ('+'.join(b), n, c['name'], dev[1], c2['name'], d2[1]),
@@ -300,8 +317,11 @@ def run(ck):
         if b:
             ck.violation('C03:%s:sink_state=%s' % ('+'.join(b), s[0]), {'state': s[0], 'config': s[1], 'uid': s[2], 'report': {k: rep.get(k) for k in ('signals', 'exit_code', 'term_sig', 'blocked_call', 'total_timeout', 'result')},
                          'sanitizer': rep['san'][:1], 'last_calls': rep.get('calls', [])[-4:]})
+    if diverged[0]:
+        ck.capped = True
     ck.assumptions += ['allocation failure (mmap/brk) outside the domain', 'single deviations complete; pairs only in thorough on the three richest configurations with a reduced second-level menu']
     ck.coverage(evaluations=evals, distinct_nontrivial=len(outcomes), states=len(outcomes), transitions=evals, traces_validated_against_impl=evals,
                 rule='bound 0 trace per configuration; bound 1 = every (call position in the window, answer of the class menu); bound 2 pairs in thorough; constructed sink states. distinct = (config, call, path, answer, verdict, tail length)',
                 configurations=len(cfg), single_fault_runs=len(jobs), pair_runs=pairs_done, sink_states=len(states), window_calls={n: t.get('ncalls') for n, t in zip(names, traces)},
+                runs_not_evaluated_because_trace_diverged=diverged[0],
                 bound_completed=2 if (ck.tier == 'thorough' and not ck.capped) else 1, samples=samples or [{'note': 'none'}])
